@@ -744,14 +744,17 @@ pub fn minimise(
 ) -> (Value, usize) {
     let mut best = plan.clone();
     let mut execs = 0;
+    // shrinking is a convenience: it never takes more than two minutes per violation
+    let started = Instant::now();
+    let wall_cap = Duration::from_secs(120);
     let budget = if key == HANG_KEY { 3 } else { 20 };
     let max_execs = if key == HANG_KEY { max_execs.min(60) } else { max_execs };
     let mut improved = true;
-    while improved && execs < max_execs {
+    while improved && execs < max_execs && started.elapsed() <= wall_cap {
         improved = false;
         let cands = candidates(&best);
         for c in cands {
-            if execs >= max_execs {
+            if execs >= max_execs || started.elapsed() > wall_cap {
                 break;
             }
             let size_c = serde_json::to_string(&c).map(|s| s.len()).unwrap_or(usize::MAX);
@@ -948,6 +951,7 @@ pub fn run_check(def: &CheckDef, tier: Tier, seed: u64, scale: f64) -> CheckResu
     let mut reported: Vec<(String, String, String)> = Vec::new(); // (scenario, key, replay)
     let mut known_lines: BTreeSet<String> = BTreeSet::new();
     let mut other_props: BTreeMap<String, u64> = BTreeMap::new();
+    let mut minimised = 0usize;
 
     for (name, share) in &def.scenarios {
         let scn = match scenarios::by_name(name) {
@@ -1062,7 +1066,14 @@ pub fn run_check(def: &CheckDef, tier: Tier, seed: u64, scale: f64) -> CheckResu
                 ));
                 continue;
             }
-            let (min_plan, execs) = minimise(name, &plan, &v.property, &v.key, 300);
+            // the first few violations of a check are shrunk; a tree that is broken in many
+            // ways gets the remaining ones reported with the plan that found them
+            minimised += 1;
+            let (min_plan, execs) = if minimised <= 6 {
+                minimise(name, &plan, &v.property, &v.key, 300)
+            } else {
+                (plan.clone(), 0)
+            };
             let confirm = exec_in_child(name, &min_plan, true, 20);
             if !violates(&confirm, &v.property, &v.key) {
                 harness_problems.push(format!(
